@@ -46,9 +46,24 @@ fn main() {
         let image = build_sii(&d);
         // builder and decoder are written independently of each other and of ethercrab: they must
         // agree, or the harness itself is wrong (inconclusive, never a verdict on ethercrab)
+        // (the image keeps TxPDOs and RxPDOs in two categories, in either order: compare per direction)
+        let by_dir = |p: &[PdoDesc]| -> (Vec<PdoDesc>, Vec<PdoDesc>) { (p.iter().filter(|x| x.tx).cloned().collect(), p.iter().filter(|x| !x.tx).cloned().collect()) };
         match decode_sii(&image) {
-            Some(x) if (x.vendor, x.product, x.revision, x.serial, &x.strings, &x.sms, &x.pdos, &x.fmmu_ex, x.mailbox, x.has_general) == (d.vendor, d.product, d.revision, d.serial, &d.strings, &d.sms, &d.pdos, &d.fmmu_ex, d.mailbox, d.has_general) => sh.count("builder_decoder_agree"),
-            other => sh.inconclusive = Some(format!("harness: SII builder and decoder disagree on case {case}: {:?}", other.map(|x| (x.strings.len(), x.sms.len(), x.pdos.len())))),
+            Some(x) if (x.vendor, x.product, x.revision, x.serial, &x.strings, &x.sms, by_dir(&x.pdos), &x.fmmu_ex, x.mailbox, x.has_general) == (d.vendor, d.product, d.revision, d.serial, &d.strings, &d.sms, by_dir(&d.pdos), &d.fmmu_ex, d.mailbox, d.has_general) => sh.count("builder_decoder_agree"),
+            other => {
+                let which = other.as_ref().map(|x| {
+                    let mut w = vec![];
+                    if (x.vendor, x.product, x.revision, x.serial) != (d.vendor, d.product, d.revision, d.serial) { w.push("identity"); }
+                    if x.strings != d.strings { w.push("strings"); }
+                    if x.sms != d.sms { w.push("sms"); }
+                    if by_dir(&x.pdos) != by_dir(&d.pdos) { w.push("pdos"); }
+                    if x.fmmu_ex != d.fmmu_ex { w.push("fmmu_ex"); }
+                    if x.mailbox != d.mailbox { w.push("mailbox"); }
+                    if x.has_general != d.has_general { w.push("has_general"); }
+                    w
+                });
+                sh.inconclusive = Some(format!("harness: SII builder and decoder disagree on case {case}: {which:?} {:?}", other.map(|x| (x.strings.len(), x.sms.len(), x.pdos.len(), x.fmmu_ex.len()))));
+            }
         }
         if rng.chance(1, 24) {
             real_dump_checks(&mut sh, case, &mut rng);
